@@ -52,6 +52,30 @@ static inline uint32_t spec_crc32c_byte(uint32_t crc, uint8_t b) {
 #define SPEC_U64(p) ((const uint64_t *)(p))
 #define SPEC_U8(p) ((const uint8_t *)(p))
 
+
+/* pack_bools domain: by default every byte value is a truth value (what the scalar kernel accepts);
+ * -DCQV_BOOL01 restricts the claim, element by element, to bytes that are 0 or 1 */
+#ifdef CQV_BOOL01
+#define SPEC_BOOL_DOMAIN(x) ((x) <= 1)
+#else
+#define SPEC_BOOL_DOMAIN(x) 1
+#endif
+/* CRC-32C framing: init/xorout inversion as the scalar kernel (and RFC 3720) apply it;
+ * -DCQV_CRC_RAW states the raw accumulate (no inversion) instead */
+#ifdef CQV_CRC_RAW
+#define SPEC_CRC_PRE(x) (x)
+#define SPEC_CRC_POST(x) (x)
+#else
+#define SPEC_CRC_PRE(x) (~(x))
+#define SPEC_CRC_POST(x) (~(x))
+#endif
+#define SPEC_CRC2(a, p) spec_crc32c_byte(spec_crc32c_byte((a), (p)[0]), (p)[1])
+#define SPEC_CRC4(a, p) SPEC_CRC2(SPEC_CRC2((a), (p)), (p) + 2)
+#define SPEC_CRC8(a, p) SPEC_CRC4(SPEC_CRC4((a), (p)), (p) + 4)
+/* number of the 8 levels p[0..7] equal to m */
+#define SPEC_EQ1(p, j, m) (((p)[j] == (m)) ? 1 : 0)
+#define SPEC_EQ8(p, m) (SPEC_EQ1(p, 0, m) + SPEC_EQ1(p, 1, m) + SPEC_EQ1(p, 2, m) + SPEC_EQ1(p, 3, m) + SPEC_EQ1(p, 4, m) + SPEC_EQ1(p, 5, m) + SPEC_EQ1(p, 6, m) + SPEC_EQ1(p, 7, m))
+
 #define SPEC_BIT(bytes, k) ((uint8_t)(((bytes)[(k) >> 3] >> ((k) & 7)) & 1))
 
 /* dispatcher: which ISA a kernel family is compiled for (CMakeLists.txt COMPILE_FLAGS):
